@@ -95,7 +95,6 @@ Proof.
   intros H (Ho & Hnw & Hov & Hnv) (Hi & Hnp). unfold parse_replace in H. fold arrow in H.
   destruct args as [|a0 [|a1 [|a2 [|a3 [|a4 [|a5 rest]]]]]];
     cbn [length nth_tok set_nth Nat.leb Nat.ltb Nat.eqb Nat.add andb orb negb] in H; try discriminate.
-  - (* one token *) discriminate.
   - (* two tokens *) destruct (str_eqb a1 arrow); cbn in H; discriminate.
   - (* three tokens: a0 => a2 *)
     destruct (str_eqb a1 arrow) eqn:E1; cbn [Nat.leb Nat.ltb Nat.eqb Nat.add andb orb negb nth_tok set_nth] in H; [|discriminate].
